@@ -44,4 +44,5 @@ def main():
     return 1 if bad or n < 50 else 0
 
 if __name__ == '__main__':
-    sys.exit(main())
+    from .bigframe import run_in_big_frame
+    sys.exit(run_in_big_frame(main))
